@@ -441,3 +441,73 @@ Definition py_setattr (o : pv) (name : string) (v : pv) : pr pv :=
 (* a format expression ("..." % x, f-strings): the text is not modelled; the translator only admits
    it where the value flows into log calls and exception messages *)
 Definition py_opaque_text : pr pv := POk (VStr []).
+
+(* ---------- additions for the second group of translated functions ---------- *)
+
+(* c[lo:hi] with bounds computed at run time (None = absent bound) *)
+Definition py_slice_v (c : pv) (lo hi : option pv) : pr pv :=
+  let bound (b : option pv) : option (option Z) :=
+    match b with
+    | None => Some None
+    | Some VNone => Some None
+    | Some v => match vint v with Some z => Some (Some z) | None => None end
+    end in
+  match bound lo, bound hi with
+  | Some l, Some h => py_slice c l h
+  | _, _ => PRaise TypeError
+  end.
+
+(* b.hex() *)
+Definition py_hex (v : pv) : pr pv :=
+  match v with
+  | VBytes b => POk (VStr (hex b))
+  | VObj _ _ => PStuck
+  | _ => PRaise AttributeError
+  end.
+
+(* int.from_bytes(b, byteorder="big", signed=False) *)
+Definition py_from_bytes_be (v : pv) : pr pv :=
+  match v with
+  | VBytes b => POk (VInt (Z.of_N (from_bytes_be b)))
+  | _ => PStuck
+  end.
+
+(* EnumClass(x) for an IntEnum with the given values: the member (an int) or ValueError *)
+Definition py_enum_of (values : list Z) (v : pv) : pr pv :=
+  match vnum v with
+  | Some z => if mem_Z z values then POk (VInt z) else PRaise ValueError
+  | None => match v with VObj _ _ => PStuck | VFloat None => PStuck | _ => PRaise ValueError end
+  end.
+
+(* str(x) for the values whose text the translated code relies on *)
+Definition py_str (v : pv) : pr pv :=
+  match v with
+  | VStr x => POk (VStr x)
+  | VInt z => POk (VStr (dec_Z z))
+  | _ => PStuck
+  end.
+
+(* one replacement field of an f-string: format(v, "") *)
+Definition py_fmt_field (v : pv) : pr str :=
+  match v with
+  | VStr x => POk x
+  | VInt z => POk (dec_Z z)
+  | _ => PStuck
+  end.
+
+(* x.encode("ascii"): UnicodeEncodeError is a ValueError *)
+Definition py_encode_ascii (v : pv) : pr pv :=
+  match v with
+  | VStr x => if forallb (fun c => c <? 128) x then POk (VBytes x) else PRaise ValueError
+  | VObj _ _ => PStuck
+  | _ => PRaise AttributeError
+  end.
+
+(* int(x, base): the standard library's parser is an oracle (None = ValueError); non-strings are a TypeError *)
+Definition py_int_base (oracle : str -> Z -> option Z) (v base : pv) : pr pv :=
+  match v, base with
+  | VStr x, VInt b => match oracle x b with Some z => POk (VInt z) | None => PRaise ValueError end
+  | VStr _, _ => PStuck
+  | VObj _ _, _ => PStuck
+  | _, _ => PRaise TypeError
+  end.
